@@ -83,8 +83,9 @@ class Check(PropertyCheck):
         b = rng.choice(BUILDERS)
         rm, rj = rng.choice([(1, 1), (1, 1), (1, 0), (0, 1), (0, 0)])
         lines = ["new", instance_line(jobs), gen.filter_line(f)]
-        for k in rng.sample(["is_completed mj", "is_completed o", "remaining_operations -", "is_ready -", "history -"],
-                            rng.randint(0, 2)):
+        # (completion-flag observers of the user's that track only SOME of the flags the updater needs: it has to get one of its own)
+        for k in rng.sample(["is_completed mj", "is_completed o", "is_completed m", "is_completed j", "is_completed om",
+                             "remaining_operations -", "is_ready -", "history -"], rng.randint(0, 2)):
             lines.append("fobs " + k)
         tr = gen.Tracker(jobs)
         n_acc = 0
@@ -115,7 +116,7 @@ class Check(PropertyCheck):
                 j, p, m = gen.gen_valid_request(rng, tr)
                 tr.take(j)
                 lines.append(f"disp {j} {p} {m}")
-            lines.append("fobs is_completed " + rng.choice(["mj", "-", "mj"]))
+            lines.append("fobs is_completed " + rng.choice(["mj", "-", "mj", "m", "j", "om", "o", "oj"]))
             lines.append("reset")
             tr.reset()
         # (graphs pruned by their owner before the hand-over are left to C12/C18: C17 speaks of the graphs the builders yield - in a
